@@ -292,13 +292,18 @@ func runC13Race(r *ev.Run) {
 			go func() { drv.Run(); close(done) }()
 			gos := 0
 			for _, ln := range sc {
-				io.WriteString(pw, ln+"\n")
 				if strings.HasPrefix(ln, "go") {
 					gos++
 				}
-				time.Sleep(d)
 			}
-			pw.Close()
+			// the feeder runs on its own goroutine: a driver that stops reading must not hang the harness
+			go func() {
+				for _, ln := range sc {
+					io.WriteString(pw, ln+"\n")
+					time.Sleep(d)
+				}
+				pw.Close()
+			}()
 			select {
 			case <-done:
 			case <-time.After(30 * time.Second):
